@@ -5,6 +5,9 @@
 //   2 optional<T const&> from / assigned from a NON-const optional<T&> / optional<T> lvalue, and converting assignment
 //   3 visit whose visitor returns a reference; visit with no variant
 //   4 and_then / or_else / value_or on rvalue optional / expected with a move-only payload and rvalue-only callables
+//   5 variant with a REPEATED alternative type: "is it constructible / assignable from U?" must be answerable (false, as for
+//     std::variant) and an overload set containing such a variant parameter must still resolve - on the tree this was
+//     written against the alternative selector derived twice from the same base class, a hard error
 #include "vf.hpp"
 #include "vf_contract.hpp"
 #include "vf_tracked.hpp"
@@ -155,6 +158,39 @@ void run_all()
             compare(eo, so);
         }
     }
+    vf::registry().reset();
+}
+
+#elif VF_PROBE == 5
+    #define VF_UNIT "C07_probe_repeated_alt_traits"
+template <typename V>
+int pick_overload(V const&) { return 1; }
+template <typename V>
+int pick_overload_set(short x)
+{
+    struct S {
+        static int f(V const&) { return 1; }
+        static int f(short) { return 2; }
+    };
+    return S::f(x);
+}
+template <typename EV, typename SV>
+void one(char const* subj)
+{
+    vf::crumb(subj, "is_constructible / is_assignable / overload resolution with a non-alternative argument", "repeated-alternative-type", "-");
+    vf::eq_bool("is_constructible<V,short>", std::is_constructible_v<EV, short>, std::is_constructible_v<SV, short>);
+    vf::eq_bool("is_constructible<V,char const*>", std::is_constructible_v<EV, char const*>, std::is_constructible_v<SV, char const*>);
+    vf::eq_bool("is_assignable<V&,short>", std::is_assignable_v<EV&, short>, std::is_assignable_v<SV&, short>);
+    vf::eq_bool("is_convertible<short,V>", std::is_convertible_v<short, EV>, std::is_convertible_v<short, SV>);
+    vf::eq_bool("is_copy_constructible<V>", std::is_copy_constructible_v<EV>, std::is_copy_constructible_v<SV>);
+    vf::eq_int("overload set f(V const&) / f(short) called with short", pick_overload_set<EV>(short{1}), pick_overload_set<SV>(short{1}));
+    vf::cover("repeated alternative types: constructibility queries", vf::fnv(subj), true);
+}
+void run_all()
+{
+    one<etl::variant<int, int>, std::variant<int, int>>("variant<int,int>");
+    one<etl::variant<TCM, int, TCM>, std::variant<TCM, int, TCM>>("variant<tracked-cm,int,tracked-cm>");
+    one<etl::variant<StrLike, StrLike, char>, std::variant<StrLike, StrLike, char>>("variant<string-like,string-like,char>");
     vf::registry().reset();
 }
 
